@@ -38,62 +38,6 @@ def trap(ins, fmap, trapname):
 
 
 @__npc
-def i_LB(ins, fmap):
-    dst, src = ins.operands
-    if dst is not zero:
-        fmap[dst] = fmap(src).signextend(32)
-
-
-@__npc
-def i_LBU(ins, fmap):
-    dst, src = ins.operands
-    if dst is not zero:
-        fmap[dst] = fmap(src).zeroextend(32)
-
-
-@__npc
-def i_LH(ins, fmap):
-    dst, src = ins.operands
-    if dst is not zero:
-        fmap[dst] = fmap(src).signextend(32)
-
-
-@__npc
-def i_LHU(ins, fmap):
-    dst, src = ins.operands
-    if dst is not zero:
-        fmap[dst] = fmap(src).zeroextend(32)
-
-
-@__npc
-def i_LW(ins, fmap):
-    dst, src = ins.operands
-    if dst is not zero:
-        fmap[dst] = fmap(src)
-
-
-@__npc
-def i_SB(ins, fmap):
-    dst, src = ins.operands
-    if dst.a.base is not zero:
-        fmap[dst] = fmap(src[0:8])
-
-
-@__npc
-def i_SH(ins, fmap):
-    dst, src = ins.operands
-    if dst.a.base is not zero:
-        fmap[dst] = fmap(src[0:16])
-
-
-@__npc
-def i_SW(ins, fmap):
-    dst, src = ins.operands
-    if dst.a.base is not zero:
-        fmap[dst] = fmap(src)
-
-
-@__npc
 def i_ADD(ins, fmap):
     dst, src1, src2 = ins.operands
     if dst is not zero:
@@ -325,7 +269,8 @@ def i_SW(ins, fmap):
 @__npc
 def i_LB(ins, fmap):
     dst, src = ins.operands
-    fmap[dst] = fmap(src).signextend(32)
+    if dst is not zero:
+        fmap[dst] = fmap(src).signextend(32)
 
 
 i_LH = i_LW = i_LB
@@ -334,7 +279,8 @@ i_LH = i_LW = i_LB
 @__npc
 def i_LBU(ins, fmap):
     dst, src = ins.operands
-    fmap[dst] = fmap(src).zeroextend(32)
+    if dst is not zero:
+        fmap[dst] = fmap(src).zeroextend(32)
 
 
 i_LHU = i_LBU
@@ -352,4 +298,9 @@ def i_FENCE_I(ins, fmap):
 
 @__npc
 def i_ECALL(ins, fmap):
+    pass
+
+
+@__npc
+def i_EBREAK(ins, fmap):
     pass
